@@ -74,7 +74,9 @@ def run(ctx):
                 "ends, on both backends - an out-of-range index must raise IndexError as NumPy does; plus array (op) PYTHON "
                 "SCALAR (True, 2, 9, 0.5, 2.0; scalar on the right and on the left) for add/subtract/multiply/divide/pow over "
                 "dtypes bool, int8, uint8, float32, float64, judged on RESULT DTYPE (NumPy 2 weak-scalar promotion) and values "
-                "(int8/uint8 wrap modulo 256); "
+                "(int8/uint8 wrap modulo 256); plus sum/prod/min/max/mean/std/var over 2..3 arrays WITH an explicit axis= "
+                "(array-API) / dim= (xarray) keyword, every axis: as HEAD behaves the reduction stays across the arguments, and "
+                "the marked functions stay batchable when the keyword is passed to the inner and outer calls; "
                 "each case evaluated on numpy "
                 "arrays and on DataArrays; non-trivial = more than one element involved; batchability of each variadic "
                 f"function decided by TLC on 1..{consts['BatchArgs']} arguments, every composition into consecutive batches",
